@@ -4,6 +4,28 @@ From Verif Require Import Base.Check Model.PoolMap Model.Geometry Model.PoolSpec
 Import ListNotations.
 Local Open Scope N_scope.
 
+(* The harness writes every address relative to the case's base, biased by 65536 (small literals are
+   much cheaper to type-check than 128-bit ones): value v stands for base + v - 65536. *)
+Definition BIAS : N := 65536.
+Definition unb (base v : N) : N := base + v - BIAS.
+Definition unb_op (base : N) (o : op) : op :=
+  match o with
+  | AllocSpec h a pl => AllocSpec h (unb base a) pl
+  | SetAlloc h a pl => SetAlloc h (unb base a) pl
+  | ReleaseUnit a pl => ReleaseUnit (unb base a) pl
+  | LookupUnit a pl => LookupUnit (unb base a) pl
+  | MarkUnavail a pl => MarkUnavail (unb base a) pl
+  | _ => o
+  end.
+Definition unb_out (base : N) (r : out) : out :=
+  match r with
+  | OUnit u => OUnit (unb base u)
+  | OSnap l => OSnap (map (fun p => (fst p, unb base (snd p))) l)
+  | _ => r
+  end.
+Definition unb_trace (base : N) (tr : list (op * out)) : list (op * out) :=
+  map (fun p => (unb_op base (fst p), unb_out base (snd p))) tr.
+
 (* bitmap: case = (bits, base, pool prefix length, prefix length) , trace *)
 Definition bcase := ((N * N * N * N) * list (op * out))%type.
 Definition bgeo (c : N * N * N * N) : geo :=
@@ -12,7 +34,7 @@ Definition run_bitmap (prop : N) (cs : list bcase) : list (list N) :=
   concat (map (fun ic : N * bcase =>
      let g := bgeo (fst (snd ic)) in
      map (fun row => match row with _ :: v => fst ic :: v | [] => [] end)
-         (check_all step (accept (bitmap_scfg prop g)) out_eqb 1 [(binit g, sinit, snd (snd ic))]))
+         (check_all step (accept (bitmap_scfg prop g)) out_eqb 1 [(binit g, sinit, unb_trace (g_base g) (snd (snd ic)))]))
      (combine (map N.of_nat (seq 1 (length cs))) cs)).
 Definition run_bitmap_case := bcase.
 
@@ -24,7 +46,7 @@ Definition run_epoch (prop : N) (cs : list run_epoch_case) : list (list N) :=
      let '(base, ppl, pl, grace) := fst (snd ic) in
      map (fun row => match row with _ :: v => fst ic :: v | [] => [] end)
          (check_all Epoch.step (accept (epoch_scfg prop base ppl pl grace)) out_eqb 1
-                    [(einit base ppl pl grace, sinit, snd (snd ic))]))
+                    [(einit base ppl pl grace, sinit, unb_trace base (snd (snd ic)))]))
      (combine (map N.of_nat (seq 1 (length cs))) cs)).
 
 (* free-list pools: case = (kind, [numbers]), trace.
@@ -47,7 +69,7 @@ Definition run_freelist (prop : N) (cs : list run_freelist_case) : list (list N)
      let '(idem, univ) := fl_univ (fst (fst (snd ic))) (snd (fst (snd ic))) in
      map (fun row => match row with _ :: v => fst ic :: v | [] => [] end)
          (check_all FreeList.step (accept (freelist_scfg prop univ)) out_eqb 1
-                    [(finit idem univ, sinit, snd (snd ic))]))
+                    [(finit idem univ, sinit, unb_trace (hd 0 (snd (fst (snd ic)))) (snd (snd ic)))]))
      (combine (map N.of_nat (seq 1 (length cs))) cs)).
 
 (* hash allocation: case = (base as written, prefix length), trace *)
@@ -57,5 +79,5 @@ Definition run_hash (prop : N) (cs : list run_hash_case) : list (list N) :=
   concat (map (fun ic : N * run_hash_case =>
      let c := {| h_base := fst (fst (snd ic)); h_ppl := snd (fst (snd ic)) |} in
      map (fun row => match row with _ :: v => fst ic :: v | [] => [] end)
-         (check_all HashAlloc.step (accept (hash_scfg prop c)) out_eqb 1 [(hinit c, sinit, snd (snd ic))]))
+         (check_all HashAlloc.step (accept (hash_scfg prop c)) out_eqb 1 [(hinit c, sinit, unb_trace (h_base c) (snd (snd ic)))]))
      (combine (map N.of_nat (seq 1 (length cs))) cs)).
